@@ -2,42 +2,141 @@ package main
 
 import (
 	"encoding/json"
+	"fmt"
 	"math/rand"
+	"os"
+	"sort"
+	"strings"
 	"time"
 )
 
+var scanProps = []string{"C01", "C02", "C03", "C04", "C06", "C07", "C08", "C09", "C10", "C11", "C12", "C15", "C19", "C20"}
+
 func init() {
-	for _, p := range []string{"SCAN", "C01", "C02", "C03", "C04", "C06", "C07", "C08", "C09", "C10", "C11", "C12", "C15", "C19", "C20"} {
+	engines["SCAN"] = scanEngine
+	for _, p := range scanProps {
 		engines[p] = scanEngine
 	}
 }
 
-func genScanSpecs(prop, tier string, rng *rand.Rand) []*scanSpec {
-	base := time.Now().Unix()
-	n := 300
-	if tier == "thorough" {
-		n = 6000
+// genInclude: shapes that expose a recorded disagreement are kept out of the default streams; VERIF_GEN_INCLUDE=<name>[,<name>] adds them.
+func genInclude(name string) bool {
+	for _, x := range strings.Split(os.Getenv("VERIF_GEN_INCLUDE"), ",") {
+		if x == name || x == "all" {
+			return true
+		}
 	}
-	specs := []*scanSpec{}
-	for i := 0; i < n; i++ {
-		specs = append(specs, randomScan(rng, base))
+	return false
+}
+
+// roundTrip normalises a generated case through its JSON form, so that a replay of the stored spec is the same input.
+func roundTrip(c genCase) (genCase, error) {
+	out := genCase{Pair: c.Pair, Varied: c.Varied}
+	if c.Single != nil {
+		b, err := json.Marshal(c.Single)
+		if err != nil {
+			return out, err
+		}
+		out.Single = &scanSpec{}
+		return out, json.Unmarshal(b, out.Single)
 	}
-	return specs
+	b, err := json.Marshal(c.Hist)
+	if err != nil {
+		return out, err
+	}
+	out.Hist = &histSpec{}
+	return out, json.Unmarshal(b, out.Hist)
+}
+
+// obsClass: what the scan did, for the input distribution of the evidence.
+func obsClass(s *scanSpec, obs *scanObs, kind string) string {
+	acts := map[byte]bool{}
+	for _, g := range obs.Groups {
+		for _, e := range g.Calls {
+			if e.K8s != nil {
+				switch e.K8s.Verb {
+				case "update":
+					if e.K8s.Payload != nil && isEscTainted(e.K8s.Payload) {
+						acts['T'] = true
+					} else {
+						acts['U'] = true
+					}
+				case "delete":
+					acts['D'] = true
+				}
+			}
+			if e.Aws != nil {
+				switch e.Aws.Kind {
+				case "SetDesired":
+					acts['S'] = true
+				case "CreateFleet":
+					acts['F'] = true
+				case "TermInAsg":
+					acts['X'] = true
+				case "DescribeInstances":
+					acts['L'] = true
+				}
+			}
+		}
+	}
+	a := ""
+	for _, c := range []byte("TUSFXDL") {
+		if acts[c] {
+			a += string(c)
+		}
+	}
+	if a == "" {
+		a = "-"
+	}
+	fault, dry, locked := "", s.GlobalDry, false
+	for _, g := range s.Groups {
+		if len(g.K8s.GetFail)+len(g.K8s.UpdateFail)+len(g.K8s.DeleteFail) > 0 && !strings.Contains(fault, "k") {
+			fault += "k"
+		}
+		if (len(g.Aws.TermInAsgFail) > 0 || g.Aws.SetDesiredFail || g.Aws.DescInstFail || g.Aws.FleetFail || g.Aws.DescribeMode != 0 || len(g.Aws.AttachFail) > 0) && !strings.Contains(fault, "a") {
+			fault += "a"
+		}
+		dry = dry || g.Opts.DryMode
+		if g.State.LockAgeNs != nil && *g.State.LockAgeNs < int64(g.Opts.ScaleUpCoolDownPeriodDuration()) {
+			locked = true
+		}
+	}
+	if s.API != nil && !strings.Contains(kind, "hist") {
+		fault += "l" // lister lag
+	}
+	if fault == "" {
+		fault = "-"
+	}
+	return fmt.Sprintf("%s groups=%d out=%d acts=%s fault=%s dry=%v locked=%v", kind, len(s.Groups), obs.Out, a, fault, dry, locked)
 }
 
 func scanEngine(prop, tier string, rng *rand.Rand, replay []json.RawMessage) (*EngineResult, error) {
 	installExitTrap()
-	var specs []*scanSpec
+	var cases []genCase
 	if replay != nil {
 		for _, r := range replay {
-			s := &scanSpec{}
-			if err := json.Unmarshal(r, s); err != nil {
-				return nil, err
+			if isHistoryJSON(r) {
+				h := &histSpec{}
+				if err := json.Unmarshal(r, h); err != nil {
+					return nil, err
+				}
+				cases = append(cases, genCase{Hist: h})
+			} else {
+				s := &scanSpec{}
+				if err := json.Unmarshal(r, s); err != nil {
+					return nil, err
+				}
+				cases = append(cases, genCase{Single: s})
 			}
-			specs = append(specs, s)
 		}
 	} else {
-		specs = genScanSpecs(prop, tier, rng)
+		for _, c := range genScanCases(prop, tier, rng) {
+			n, err := roundTrip(c)
+			if err != nil {
+				return nil, err
+			}
+			cases = append(cases, n)
+		}
 	}
 	suffix := prop
 	if prop == "SCAN" {
@@ -45,16 +144,68 @@ func scanEngine(prop, tier string, rng *rand.Rand, replay []json.RawMessage) (*E
 	}
 	res := &EngineResult{Import: "CorrScan", CaseType: "scan_case", PerShard: 60,
 		Evals: []EvalDef{{"R", "mismatches_" + suffix}, {"V", "propfail_" + suffix}, {"T", "tags_scan"}},
-		Rule: "scans of the real Controller.RunOnce over a simulated API server and simulated AWS; boundary-directed and structured random worlds; " +
-			"non-trivial = the scan issued at least one Kubernetes or AWS call; distinct = distinct (journal, post-state, outcome)"}
-	for _, s := range specs {
-		obs, err := runScanSpec(s)
-		if err != nil {
-			return nil, err
+		Rule: "scans of the real Controller.RunOnce over a simulated API server and simulated AWS; per-property boundary-directed worlds first, then multi-scan " +
+			"histories of one controller instance (every scan emitted with its actual pre-scan state), then free-combination random worlds; " +
+			"non-trivial = the scan issued at least one Kubernetes or AWS call; distinct = distinct (journal, post-state, outcome)",
+		Extra: map[string]interface{}{}}
+	t0 := time.Now()
+	skipped := map[string]int{}
+	nhist, nhistScans := 0, 0
+	pairs := map[string][]pairSide{}
+	for _, c := range cases {
+		if c.Single != nil {
+			obs, err := runScanSpec(c.Single)
+			if err != nil {
+				return nil, fmt.Errorf("spec %q: %v", c.Single.Note, err)
+			}
+			coq, key, nt, _ := emitScanCase(c.Single, &obs)
+			sp, _ := json.Marshal(c.Single)
+			res.Cases = append(res.Cases, CaseOut{Coq: coq, Spec: sp, Key: key, Nontrivial: nt, Class: obsClass(c.Single, &obs, "single")})
+			if c.Pair != "" {
+				pairs[c.Pair] = append(pairs[c.Pair], pairSide{spec: c.Single, obs: obs, varied: c.Varied, raw: sp})
+			}
+			continue
 		}
-		coq, key, nt, cls := emitScanCase(s, &obs)
-		sp, _ := json.Marshal(s)
-		res.Cases = append(res.Cases, CaseOut{Coq: coq, Spec: sp, Key: key, Nontrivial: nt, Class: cls})
+		scans, err := runHistory(c.Hist)
+		if err != nil {
+			return nil, fmt.Errorf("history %q: %v", c.Hist.Shape, err)
+		}
+		nhist++
+		for k := range scans {
+			if c.Hist.EmitOnly != nil && k != *c.Hist.EmitOnly {
+				continue
+			}
+			if scans[k].Skipped != "" {
+				skipped[scans[k].Skipped]++
+				continue
+			}
+			nhistScans++
+			coq, key, nt, _ := emitScanCase(scans[k].Spec, &scans[k].Obs)
+			sp, _ := json.Marshal(c.Hist.truncated(k))
+			res.Cases = append(res.Cases, CaseOut{Coq: coq, Spec: sp, Key: key, Nontrivial: nt,
+				Class: obsClass(scans[k].Spec, &scans[k].Obs, "hist:"+c.Hist.Shape)})
+		}
 	}
+	if v := comparePairs(pairs); len(v) > 0 {
+		res.Extra["violations"] = v
+	}
+	if len(pairs) > 0 {
+		res.Extra["metamorphic_pairs"] = len(pairs)
+	}
+	res.Extra["histories"] = nhist
+	res.Extra["history_scans"] = nhistScans
+	if len(skipped) > 0 {
+		res.Extra["history_scans_skipped_for_clock_margin"] = skipped
+	}
+	res.Extra["harness_seconds"] = time.Since(t0).Seconds()
 	return res, nil
+}
+
+func sortedStrings(m map[string]bool) []string {
+	out := []string{}
+	for k := range m {
+		out = append(out, k)
+	}
+	sort.Strings(out)
+	return out
 }
